@@ -23,8 +23,7 @@ fn observe_build8(tokens: &[&str]) -> String {
         let mut p2 = rpm::Package::parse(&mut &bytes[..])?;
         let o = p2.metadata.get_package_segment_offsets();
         let (h, pl) = (o.header as usize, o.payload as usize);
-        let comp = tokens.iter().find_map(|t| t.strip_prefix("c=")).unwrap_or("zstd:19");
-        let kind = comp.split(':').next().unwrap();
+        let kind = tokens.iter().find_map(|t| t.strip_prefix("c=")).map(|c| c.split(':').next().unwrap()).unwrap_or(crate::bld::default_comp_kind());
         let arch = decompress(kind, &bytes[pl..]);
         let hsha = p2.metadata.signature.get_entry_data_as_string(rpm::IndexSignatureTag::RPMSIGTAG_SHA256).map(|s| s.to_string()).unwrap_or("absent".into());
         // file digests: recorded vs the content iterated from the payload vs the content we generated
